@@ -60,6 +60,10 @@ def check_history(case, r, ctx, tag, labels):
         ctx.fail(f"{tag}kernel-series-length",
                  f"history.mcmc_acceptance has {len(h.mcmc_acceptance)} entries for {n_it} iterations (enlargement={enlarged})", case)
     pops = h.sample_history
+    if case.get("store_history") is False:
+        if len(pops) != 0:
+            ctx.fail(f"{tag}population-count", f"store_sample_history=False but sample_history has {len(pops)} entries", case)
+        return
     if len(pops) != n_it + 1:
         pb = [float(p.beta) if p.beta is not None else None for p in pops]
         ctx.fail(f"{tag}population-count",
